@@ -98,7 +98,7 @@ def time_correlation(
     else:
         raise ValueError("WRONG input condition")
 
-    results /= results[0]
+    results = results / results[0]
     results = np.column_stack(((timesteps - timesteps[0]) * dt, results))
     results = pd.DataFrame(results, columns="t time_corr".split())
     if outputfile:
